@@ -359,7 +359,6 @@ let orc_cmd (args : string list) : string =
   | _ -> "bad-command"
 
 let cs_state = ref c0
-let cs_fixed = ref false
 let cs_ckpt : n option ref = ref None
 let cs_calls : ocall list ref = ref []
 let show_call = function
@@ -371,11 +370,10 @@ let show_outcome = function
   | OOk -> "ok" | OConflict -> "conflict" | ORetry -> "retry" | OFailed -> "failed" | ONoTx -> "notx" | OClosed -> "closed" | OBad -> "bad"
 let cs_cmd (args : string list) : string =
   let run c =
-    let ((s, o), calls) = cs_step fp_of oRACLE_GC_INTERVAL !cs_fixed !cs_state c in
+    let ((s, o), calls) = cs_step fp_of oRACLE_GC_INTERVAL !cs_state c in
     cs_state := s; cs_calls := calls; show_outcome o in
   match args with
   | ["new"] -> cs_state := c0; cs_ckpt := None; cs_calls := []; "ok"
-  | ["fixed"; b] -> cs_fixed := (b = "1"); "ok"   (* model only: 1 = the repaired rollback *)
   | ["begin"; id; m] ->
     (match m with
      | "rw" -> run (SBegin (ns id, BRW)) | "wo" -> run (SBegin (ns id, BWO)) | "un" -> run (SBegin (ns id, BUnreg))
